@@ -258,6 +258,20 @@ PROPS = {
         floors={"any": {"pixels_covered": 100000, "metamorphic_cases": 20000, "composite_cases": 8000, "labels:meta_modes": 14, "labels:composite_op_mask": 60}},
         assumptions=["sample grid from the Render specification constants; edges as exact rationals in 128-bit integers", "the 2/65536 ambiguity band reflects the library's snapping of edges to 16.16"],
     ),
+    "C13": dict(
+        level="exploration", monitors={"mon_grad": {"sources": ["mon_grad.c", "ref_pixel.c", "vf.c"]}},
+        runs=[dict(name="plain", monitor="mon_grad", flavour="plain", cases={"quick": 40000, "thorough": 3000000}),
+              dict(name="asan", monitor="mon_grad", flavour="asan", cases={"quick": 8000, "thorough": 300000}),
+              dict(name="degenerate-asan", monitor="mon_grad", flavour="asan", config="degenerate", cases={"quick": 12000, "thorough": 500000}),
+              dict(name="degenerate-ubsan", monitor="mon_grad", flavour="ubsan", config="degenerate", cases={"quick": 4000, "thorough": 100000})],
+        rule="one case = OP_SRC from a linear / radial / conical gradient (1..8 stops with non-decreasing, often repeated positions; all repeat modes; none / translate / affine / projective transform) into a8r8g8b8 (narrow) or rgba_float (wide), "
+             "source offsets; reference: pixel centre through the transform in long double, t from the geometry (projection; larger admissible root of the two-circle equation with r(t) >= 0, 0<=t<=1 without repeat; angle), repeat applied to t, "
+             "neighbouring stops interpolated non-premultiplied then premultiplied; hull of the colour over the uncertainty of t (position error of the 16.16 start + 4 units), one 8-bit step (2^-8 wide) tolerance, |t| <= 16; "
+             "pixels whose admissible-root set is ill-conditioned are not judged; every 8th case and the 'degenerate' runs use coincident points, zero/negative/huge radii, equal circles, unsorted and out-of-range stops, singular and wild transforms "
+             "under ASan/UBSan with a per-case CPU-time bound (safety only); evaluations = pixels judged; a cell = (kind, repeat, transform class, pipeline, stop list)",
+        floors={"any": {"regular_gradients": 20000, "degenerate_gradients": 10000, "labels:kind_repeat_transform": 60}},
+        assumptions=["reference in harness/mon_grad.c written from the statement (PDF type 3 rule for radial gradients)", "a hang is detected as a case exceeding 60 s of CPU time"],
+    ),
 }
 
 # ---------------------------------------------------------------- MANIFEST texts
@@ -331,6 +345,11 @@ MANIFEST_TEXT["C12"] = dict(
     technique="reference-model runtime monitor (sample counting with exact rational edges, ambiguity band) + exact metamorphic/differential oracles (abutting parts, pixel offsets, triangle decomposition, composite vs mask route), plain + ASan",
     level_text="Exploration: 10^5..10^7 shapes of every slope class on a1/a4/a8 targets; per-pixel coverage is compared with the count of grid samples inside the exact shape, and five bit-exact equalities between different library routes are checked.",
     level_note="trusted: sample-grid constants and rational edge evaluation in harness/mon_trap.c")
+
+MANIFEST_TEXT["C13"] = dict(
+    technique="reference-model runtime monitor (geometric parameter + stop interpolation with uncertainty hull) + ASan/UBSan safety sweep over degenerate gradients with a CPU-time bound per case",
+    level_text="Exploration: 10^6..10^8 gradient pixels judged against an independent reference within one quantisation step, plus 10^4..10^6 degenerate gradients under sanitizers for the crash/hang/out-of-bounds clause.",
+    level_note="trusted: the reference in harness/mon_grad.c; ill-conditioned pixels are skipped and counted")
 
 NOT_CLAIMED = {p: "monitor not built yet in this round (design in DESIGN.md section 6); no claim is made" for p in
                ["C%02d" % i for i in range(1, 21)]}
